@@ -1,4 +1,5 @@
 import WhVerif.Lemmas.C18Abs
+import WhVerif.Lemmas.C18UF
 /-!
 # C18 — priority queue and component finder match their abstract models on all histories
 
@@ -183,5 +184,95 @@ example : (step exQ (.push [0] 4)).2 = .misuse ∧ (step exQ (.change 3 [0])).2 
 example : run {} [.push [1] 1, .push [2] 2, .change 1 [3], .pop, .get 1, .get 2, .len, .pop, .pop, .isEmpty]
     = [.unit, .unit, .unit, .popped [3] 1, .score none, .score (some [2]), .len 1, .popped [2] 2, .empty,
        .isEmpty true] := by decide +kernel
+
+/-! ## C. the component finder (union-find, smaller value becomes root, path compression) -/
+
+/-- initially there are no parent links -/
+theorem parent_lt_init (values : List Nat) : (UF.init values).ParentLt := (uinv_init values).parentLt
+
+/-- `parent_lt` (every stored parent is strictly smaller than the node and is itself a key) is preserved
+by `_find_node` (path compression) … -/
+theorem parent_lt_find (u u' : UF) (v r : Nat) (hpl : u.ParentLt) (h : u.findNode v = some (u', r)) :
+    u'.ParentLt := (findNode_spec hpl h).2.2.2.2.1
+
+/-- … and by `merge` -/
+theorem parent_lt_merge (u u' : UF) (x y : Nat) (hpl : u.ParentLt) (h : u.merge x y = some u') :
+    u'.ParentLt := merge_parentLt hpl h
+
+/-- consequence of `parent_lt`: the fuel `nodes.length` of the model's root loop is never exhausted —
+climbing from a key reaches a real root (`parent = None`), which is a key not greater than the start;
+more fuel gives the same answer. This is the termination of the first `while` loop of `_find_node`. -/
+theorem root_reaches_real_root (u : UF) (v : Nat) (hpl : u.ParentLt) (hk : u.isKey v) :
+    u.RootOf v (u.root v) ∧ u.parentOf (u.root v) = some none ∧ u.root v ≤ v ∧
+      ∀ k, u.rootFuel (u.nodes.length + k) v = u.root v := by
+  have h := root_spec hpl hk
+  refine ⟨h, rootOf_isRoot h, rootOf_le hpl h, fun k => ?_⟩
+  exact rootFuel_stable hpl hk _ (by have := cnt_lt_length hk; omega)
+
+/-- the compression loop is not cut short by its fuel either (second `while` loop of `_find_node`) -/
+theorem compression_fuel_suffices (u : UF) (v k : Nat) (hpl : u.ParentLt) (hk : u.isKey v) :
+    u.compressFuel (u.root v) (u.nodes.length + k) v = u.compressFuel (u.root v) u.nodes.length v :=
+  compressFuel_stable' hpl (root_spec hpl hk) k
+
+/-- path compression changes no root (hence no class), no key set -/
+theorem compression_preserves_classes (u u' : UF) (v r : Nat) (hpl : u.ParentLt)
+    (h : u.findNode v = some (u', r)) :
+    r = u.root v ∧ (∀ w, u'.root w = u.root w) ∧ (∀ w, u'.isKey w ↔ u.isKey w) := by
+  obtain ⟨_, e, _, k, _, _, _, rt⟩ := findNode_spec hpl h
+  exact ⟨e, rt, k⟩
+
+/-- the invariant holds initially and after every history of merges and finds, w.r.t. the pairs
+successfully merged so far -/
+theorem uf_inv_reachable (values : List Nat) (ops : List UOp) :
+    UInv values (UF.mergedPairs (UF.init values) ops) (UF.exec (UF.init values) ops) := by
+  simpa using uinv_exec (uinv_init values) ops
+
+theorem uf_inv_merge (values : List Nat) (pairs : List (Nat × Nat)) (u u' : UF) (x y : Nat)
+    (hi : UInv values pairs u) (h : u.merge x y = some u') : UInv values (pairs ++ [(x, y)]) u' :=
+  uinv_merge hi h
+
+/-- `find x` is the minimum of `x`'s connected component in the graph of merged pairs -/
+theorem find_eq_min_of_class (values : List Nat) (pairs : List (Nat × Nat)) (u u' : UF) (x r : Nat)
+    (hi : UInv values pairs u) (h : u.find x = some (u', r)) :
+    r ∈ values ∧ Conn pairs x r ∧ ∀ y, y ∈ values → Conn pairs x y → r ≤ y := by
+  obtain ⟨_, hr, _, hc, hmin, _⟩ := find_spec hi h
+  exact ⟨hr, hc, hmin⟩
+
+/-- the same after any history from `ComponentFinder(values)`; `find` raises iff `x` is not a value -/
+theorem find_eq_min_of_class_history (values : List Nat) (ops : List UOp) (x : Nat) :
+    match (UF.exec (UF.init values) ops).find x with
+    | none => x ∉ values
+    | some (_, r) => x ∈ values ∧ r ∈ values ∧ Conn (UF.mergedPairs (UF.init values) ops) x r ∧
+        ∀ y, y ∈ values → Conn (UF.mergedPairs (UF.init values) ops) x y → r ≤ y := by
+  have hi := uf_inv_reachable values ops
+  cases h : (UF.exec (UF.init values) ops).find x with
+  | none => exact (find_none_iff hi).mp h
+  | some p =>
+    obtain ⟨u', r⟩ := p
+    obtain ⟨hx, hr, _, hc, hmin, _⟩ := find_spec hi h
+    exact ⟨hx, hr, hc, hmin⟩
+
+/-- two elements share a representative iff they are connected (finds in sequence, with compression) -/
+theorem same_rep_iff_connected (values : List Nat) (pairs : List (Nat × Nat)) (u u1 u2 : UF)
+    (x y rx ry : Nat) (hi : UInv values pairs u) (h1 : u.find x = some (u1, rx))
+    (h2 : u1.find y = some (u2, ry)) : rx = ry ↔ Conn pairs x y := by
+  obtain ⟨hx, _, ex, _, _, hi1⟩ := find_spec hi h1
+  obtain ⟨hy, _, ey, _, _, _⟩ := find_spec hi1 h2
+  rw [conn_iff_root hi1 hx hy, ← ey]
+  obtain ⟨_, _, _, _, _, _, _, rt⟩ := findNode_spec hi.parentLt h1
+  rw [rt x, ← ex]
+
+/-! ### non-vacuity -/
+
+def exOps : List UOp := [.merge 5 8, .merge 9 1, .find 9, .merge 8 9, .merge 3 3, .merge 3 7, .find 8, .find 3]
+def exU : UF := UF.exec (UF.init [5, 3, 8, 1, 9, 3]) exOps
+
+example : UF.run (UF.init [5, 3, 8, 1, 9, 3]) exOps =
+    [some none, some none, some (some 1), some none, none, none, some (some 1), some (some 3)] := by decide
+example : UF.mergedPairs (UF.init [5, 3, 8, 1, 9, 3]) exOps = [(5, 8), (9, 1), (8, 9)] := by decide
+example : exU.ParentLt ∧ exU.isKey 8 ∧ exU.parentOf 5 = some (some 1) :=
+  ⟨(uf_inv_reachable _ _).parentLt, by unfold UF.isKey; decide, by decide⟩
+example : UInv [5, 3, 8, 1, 9, 3] [(5, 8), (9, 1), (8, 9)] exU := uf_inv_reachable _ exOps
+example : (exU.find 8).map (·.2) = some 1 ∧ (exU.merge 3 9).isSome = true := by decide
 
 end WhVerif.Props.C18
